@@ -58,7 +58,7 @@ package http2utils
 //@ ensures zero: forall(i, len(b) + 1, len(r0), r0[i] == 0)
 
 //@ func CutPadding
-//@ props C01 C05 C16 C17
+//@ props C01 C05 C16 C17 C02 C14
 //@ ensures ok: r1 == nil ==> length >= 1 && length <= len(payload) && payload[0] < length &&
 //@ |   samearray(r0, payload) && offset(r0) == offset(payload) + 1 && len(r0) == length - payload[0] - 1
 //@ ensures iff: r1 == nil <==> (len(payload) >= 1 && length >= 1 && length <= len(payload) && payload[0] < length)
